@@ -298,6 +298,57 @@ def r2_rule_presence(ctx):
             ctx.bad("row|%s" % rid, "src/resolver.rs (%s)" % fshort,
                     "no emit_error(%s) in %s guarded by %s: the static rule '%s' is not enforced (or its condition changed)" % (kind, fshort, frags, rid))
     ctx.floor("emit_error sites in the resolver", len(sites), 29)
+    # a rule that lives in a helper taking the node as a parameter applies to *every* kind of node: a test of the node's
+    # kind on the way to the emit_error may choose the wording, it must not exempt kinds
+    expr_kinds = {v["name"] for v in ctx.lib.adt("syntax::parser::Expr")["variants"]}
+    for helper in ("check_boolean_expr", "expect_member_string_arg", "expect_member_number_arg"):
+        fn = ctx.need("resolver::Resolver::" + helper)
+        ctx.touch(fn)
+        param = fn.locals[2]["name"] or "arg2"
+        for c in fn.calls_to(EMIT):
+            kinds = None
+            for S, al in fn.constraints(c.block):
+                si = fn.switch_info(S)
+                if si["kind"] == "discr" and "parser::Expr" in si["ty"] and sh(ne(fn.deep(fn.blocks[S]["t"]["d"]))) == "discr(%s)" % param:
+                    nm = label_names(fn, S, al, si)
+                    kinds = nm if kinds is None else (kinds & nm)
+                if si["kind"] == "multi":
+                    # matches!(param, A | B): a bool set under a switch on the node's kind
+                    true_set = set()
+                    for (bi, kk, st) in si["defs"]:
+                        if kk != "t" and st["rv"]["k"] == "use" and isinstance(st["rv"]["a"], dict) and st["rv"]["a"].get("int") == 1:
+                            for S2, lab in fn.deciding(bi):
+                                si2 = fn.switch_info(S2)
+                                if si2["kind"] == "discr" and "parser::Expr" in si2["ty"] and sh(ne(fn.deep(fn.blocks[S2]["t"]["d"]))) == "discr(%s)" % param:
+                                    true_set |= label_names(fn, S2, [lab], si2)
+                    if true_set:
+                        nm = label_names(fn, S, al, si)
+                        here = true_set if nm == {"true"} else (expr_kinds - true_set if nm == {"false"} else expr_kinds)
+                        kinds = here if kinds is None else (kinds & here)
+            missing = set() if kinds is None else expr_kinds - kinds
+            if missing:
+                ctx.bad("helper-kinds|%s|%s" % (helper, ",".join(sorted(missing))), fn.where(c.block), "%s reports its type rule only for some kinds of expression: %s nodes never reach the emit_error, so an operand of that shape with the wrong static type is accepted" % (helper, "/".join(sorted(missing))))
+            else:
+                ctx.ok("helper-kinds|%s" % helper, fn.where(c.block), "applies to every expression kind")
+    # every statement kind that carries a condition hands it to check_boolean_expr, unconditionally within its arm
+    cs = ctx.need("resolver::Resolver::check_stmt")
+    stmt = ctx.lib.adt("syntax::parser::Stmt")
+    with_cond = sorted(v["name"] for v in stmt["variants"] if any(f[0] == "cond" for f in v.get("fields", [])))
+    for vname in with_cond:
+        hit = None
+        for c in cs.calls_to("resolver::Resolver::check_boolean_expr"):
+            if sh(ne(cs.deep(c.args[1]))) != "stmt@%s.cond" % vname:
+                continue
+            cons = [(sh(ne(cs.deep(cs.blocks[S]["t"]["d"]))), label_names(cs, S, al, cs.switch_info(S))) for S, al in cs.constraints(c.block) if cs.switch_info(S)["kind"] in ("discr", "bin", "call", "multi", "place")]
+            extra = [(d, n) for d, n in cons if not (d == "discr(stmt)" and n == {vname})]
+            hit = (c, extra)
+        if hit and not hit[1]:
+            ctx.ok("condition-checked|%s" % vname, cs.where(hit[0].block), "check_boolean_expr(stmt@%s.cond) in the %s arm, unconditionally" % (vname, vname))
+        elif hit:
+            ctx.bad("condition-checked|%s|conditional" % vname, cs.where(hit[0].block), "the condition of a `%s` statement is type-checked only under %s" % (vname, [d for d, n in hit[1]][:3]))
+        else:
+            ctx.bad("condition-checked|%s" % vname, cs.where(), "the condition of a `%s` statement is never handed to check_boolean_expr: a non-boolean condition is accepted" % vname)
+    ctx.floor("statement kinds with a condition", len(with_cond), 2)
     # emit_error reports with error severity; warnings with warning severity
     for fid, want in (("resolver::Resolver::emit_error", "Severity::Error"), ("resolver::Resolver::emit_warning", "Severity::Warning")):
         fn = ctx.need(fid)
@@ -356,19 +407,56 @@ def r3_context_per_function(ctx):
 def r4_declared_type_follows_latest_declaration(ctx):
     """`make x get A ... make x get B` in one block: the type recorded for x must become B's."""
     cs = ctx.need("resolver::Resolver::check_stmt")
-    ctx.touch(cs)
-    vt = [i for i, l in enumerate(cs.locals) if l["name"] == "var_type"]
-    if not vt:
-        # fall back: the local that holds unwrap_or(infer_expr_type(..), Dynamic) in the Assign arm
-        for c in cs.calls():
-            if (c.callee or "").endswith("Option::unwrap_or") and "infer_expr_type" in sh(ne(cs.deep(c.args[0]))) and not c.dest["p"]:
-                vt.append(c.dest["l"])
-    if not vt:
-        ctx.bad("redeclare|no-type-local", cs.where(), "check_stmt's `make` arm no longer computes the declared type from the initialiser")
+    fam = ctx.lib.family(cs.id)
+    for g in fam:
+        ctx.touch(g)
+    ENTRY = "(&str, helpers::ValueType, "
+    # (1) a new declaration pushes an entry whose type component is the initialiser's inferred type
+    # (2) a redeclaration stores the initialiser's inferred type into component 1 of the existing entry
+    # Both are looked for in check_stmt and its closures, so that `match`, `if let` and combinator spellings are all seen.
+    stores, pushes = [], []
+    for g in fam:
+        for b in sorted(g.live):
+            for st in g.blocks[b]["s"]:
+                lp = st["lhs"]["p"]
+                if lp and isinstance(lp[-1], dict) and str(lp[-1].get("f")) == "1" and str(lp[-1].get("of", "")).startswith(ENTRY):
+                    stores.append((g, b, st))
+                rv = st["rv"]
+                if rv["k"] == "agg" and rv.get("adt") in (None, "", "(tuple)") or (rv["k"] == "agg" and "tuple" in str(rv.get("adt", ""))):
+                    if len(rv.get("ops", [])) == 4:
+                        pushes.append((g, b, st))
+
+    def captured(g, idx):
+        """The parent's expression captured as upvar #idx of closure g."""
+        import re as _re
+        m = _re.search(r"(\{closure#\d+\})$", g.id)
+        par = ctx.lib.fns.get(g.id[:g.id.rindex("::{closure")])
+        if not m or par is None:
+            return None
+        for b in sorted(par.live):
+            for st in par.blocks[b]["s"]:
+                rv = st["rv"]
+                if rv["k"] == "agg" and str(rv.get("adt", "")).endswith(m.group(1)) and idx < len(rv.get("ops", [])):
+                    return sh(ne(par.deep(rv["ops"][idx])))
+        return None
+
+    def from_inference(g, operand):
+        import re as _re
+        t = sh(ne(g.deep(operand)))
+        m = _re.match(r"^\*?arg1\.(\d+)$", t)
+        if m and "{closure" in g.id:
+            t = captured(g, int(m.group(1))) or t
+        return "infer_expr_type" in t or _re.search(r"(^|[.*&])var_type$", t) is not None
+    typed_push = [(g, b, st) for g, b, st in pushes if from_inference(g, st["rv"]["ops"][1])]
+    typed_store = [(g, b, st) for g, b, st in stores if st["rv"]["k"] == "use" and from_inference(g, st["rv"]["a"])]
+    if typed_push:
+        ctx.ok("declare|type-recorded", typed_push[0][0].where(typed_push[0][1]), "a new variable is recorded with the initialiser's type")
+    else:
+        ctx.bad("declare|type-recorded", cs.where(), "a new variable is not recorded with its initialiser's type")
+    if not typed_store:
+        ctx.bad("redeclare|type-refreshed", cs.where(), "on the redeclaration path (`make x` when x already exists in this block) the new static type is never stored into the existing entry: later uses of x are checked against the old type (valid programs rejected, invalid ones accepted)")
         return
-    from ..mir import read_places
-    uses = sorted({b for b, pl in read_places(cs) if pl["l"] in vt and not pl["p"]})
-    # the Option switch that separates "name already declared in this scope" from "new name"
+    # where the lookup is a visible Option switch in the body, the store must sit on its Some side
     sw = None
     for S in sorted(cs.live):
         if cs.blocks[S]["t"]["k"] != "switch":
@@ -379,23 +467,219 @@ def r4_declared_type_follows_latest_declaration(ctx):
             if ("rposition" in d or "position" in d or "find" in d) and "variable_scopes" in d:
                 sw = (S, si)
                 break
-    if sw is None:
-        ctx.bad("redeclare|no-lookup", cs.where(), "the `make` arm no longer looks the name up in the current scope")
-        return
-    S, si = sw
-    some_use = [b for b in uses for lab, _ in cs.succ[S] if label_names(cs, S, [lab], si) == {"Some"} and cs.edge_dominated(b, S, [lab])]
-    none_use = [b for b in uses for lab, _ in cs.succ[S] if label_names(cs, S, [lab], si) == {"None"} and cs.edge_dominated(b, S, [lab])]
-    if none_use:
-        ctx.ok("declare|type-recorded", cs.where(none_use[0]), "a new variable is recorded with the initialiser's type")
+    g, b, st = typed_store[0]
+    if sw is not None and g is cs:
+        S, si = sw
+        on_some = any(label_names(cs, S, [lab], si) == {"Some"} and cs.edge_dominated(b, S, [lab]) for lab, _ in cs.succ[S])
+        if on_some:
+            ctx.ok("redeclare|type-refreshed", cs.where(b), "a redeclaration in the same block stores the new initialiser's type (Some side of the scope lookup)")
+        else:
+            ctx.bad("redeclare|type-refreshed", cs.where(b), "the store of the new static type is not on the path where the name was found in the current scope")
     else:
-        ctx.bad("declare|type-recorded", cs.where(S), "a new variable is not recorded with its initialiser's type")
-    if some_use:
-        ctx.ok("redeclare|type-refreshed", cs.where(some_use[0]), "a redeclaration in the same block stores the new initialiser's type")
-    else:
-        ctx.bad("redeclare|type-refreshed", cs.where(S), "on the redeclaration path (`make x` when x already exists in this block) the new static type is never stored: later uses of x are checked against the old type")
+        ctx.ok("redeclare|type-refreshed", g.where(b), "the existing entry's type component is overwritten with the initialiser's type (%s)" % g.id.split("::")[-1])
 
 
-RULES = [("C09-R1", r1a_typing_tables), ("C09-R1b", r1b_accepted_is_evaluable), ("C09-R2", r2_rule_presence), ("C09-R3", r3_context_per_function), ("C09-R4", r4_declared_type_follows_latest_declaration)]
+# A path on which a child is legitimately not visited, one named query each.
+TRAVERSAL_SKIP_OK = {
+    ("resolver::Resolver::check_function_body", "predeclared_function_id"):
+        "a function definition that predeclare_block_functions did not register was rejected there (duplicate / reserved name): the program is already in error",
+}
+
+
+def r5_every_child_is_checked(ctx):
+    """The checker visits every sub-expression of every node on every path (an early return that skips a child - whatever the
+    reason - exempts everything inside that child from all static rules)."""
+    from ..tables import entry_discr_switch
+    n = [0]
+    expr_variants = {v["name"]: v for v in ctx.lib.adt("syntax::parser::Expr")["variants"]}
+
+    def child_kind(fty):
+        opt = fty.startswith("std::option::Option<")
+        inner = fty[len("std::option::Option<"):-1] if opt else fty
+        if "ArgList" in inner or ("[&" in inner and "parser::Expr<" in inner):
+            return "list", opt
+        if inner.startswith("&") and "parser::Expr<" in inner:
+            return "expr", opt
+        if inner.startswith("&") and "parser::Block<" in inner:
+            return "block", opt
+        return None, opt
+
+    _hv = {}
+
+    def helper_visits(callee, lidx, visitors):
+        """In the helper, the parameter in MIR local `lidx` reaches a visitor on every path (its None side excepted)."""
+        if (callee, lidx) in _hv:
+            return _hv[(callee, lidx)]
+        h = ctx.lib.fns.get(callee)
+        ok = False
+        if h is not None and lidx < len(h.locals):
+            ctx.touch(h)
+            pname = h.locals[lidx]["name"] or "arg%d" % lidx
+            via, removed_edges = set(), []
+            for c in h.calls():
+                short = (c.callee or "").split("::")[-1]
+                if short in visitors and len(c.args) > 1:
+                    t = [sh(ne(h.deep(a))) for a in c.args[1:]]
+                    if pname in t or pname + "@Some.0" in t:
+                        via.add(c.block)
+            for S2 in sorted(h.live):
+                if h.blocks[S2]["t"]["k"] == "switch":
+                    si2 = h.switch_info(S2)
+                    dtxt = sh(ne(h.deep(h.blocks[S2]["t"]["d"])))
+                    if si2["kind"] == "discr" and dtxt == "discr(%s)" % pname:
+                        for lab2, t2 in h.succ[S2]:
+                            if label_names(h, S2, [lab2], si2) == {"None"}:
+                                removed_edges.append((S2, lab2))
+                    for (hfn, q), why in TRAVERSAL_SKIP_OK.items():
+                        if callee == hfn and si2["kind"] == "discr" and dtxt.startswith("discr(%s(" % q):
+                            for lab2, t2 in h.succ[S2]:
+                                if label_names(h, S2, [lab2], si2) == {"None"}:
+                                    removed_edges.append((S2, lab2))
+                                    ctx.ok("traversal|exception|%s|%s" % (hfn.split("::")[-1], q), h.where(S2), "named exception: " + why)
+            if via:
+                r = h.reach([0], removed_nodes=via, removed_edges=removed_edges)
+                ok = not (r & set(h.exits()))
+        _hv[(callee, lidx)] = ok
+        return ok
+
+    def check_children(fn, fid, S, lab, tgt, owner_text, vname, v, visitors, param, depth):
+        exits = set(fn.exits())
+        arm_only = {b for b in fn.live if fn.edge_dominated(b, S, [lab])} | {tgt}
+        outside = set(fn.live) - arm_only - exits
+        for fname, fty, _vis in v["fields"]:
+            kind, opt = child_kind(fty)
+            if kind is None:
+                continue
+            base = "%s@%s.%s" % (owner_text, vname, fname)
+            target_text = base + "@Some.0" if opt else base
+            key = "traversal|%s|%s" % (fid.split("::")[-1], base.replace(param + "@", ""))
+            n[0] += 1
+            via, how = set(), None
+            none_side = set()
+            if opt:
+                for S2 in sorted(arm_only):
+                    if fn.blocks[S2]["t"]["k"] == "switch":
+                        si2 = fn.switch_info(S2)
+                        if si2["kind"] == "discr" and sh(ne(fn.deep(fn.blocks[S2]["t"]["d"]))) == "discr(%s)" % base:
+                            for lab2, t2 in fn.succ[S2]:
+                                if label_names(fn, S2, [lab2], si2) == {"None"}:
+                                    none_side |= {b for b in arm_only if fn.edge_dominated(b, S2, [lab2])} | {("edge", S2, lab2)}
+            for c in fn.calls():
+                if c.block not in arm_only:
+                    continue
+                short = (c.callee or "").split("::")[-1]
+                if short in visitors and len(c.args) > 1 and kind != "list":
+                    if sh(ne(fn.deep(c.args[1]))) == target_text and short in ("check_expr", "check_boolean_expr", "check_block"):
+                        via.add(c.block)
+                        how = short
+                    elif short not in ("check_expr", "check_boolean_expr", "check_block"):
+                        # a helper that is handed the child (whole, or its Some payload) answers for it
+                        for k, a in enumerate(c.args[1:]):
+                            if sh(ne(fn.deep(a))) in (target_text, base) and helper_visits(c.callee, k + 2, visitors):
+                                via.add(c.block)
+                                how = short
+                if kind == "list" and short == "next":
+                    t = sh(ne(fn.deep(c.args[0])))
+                    if ("(%s" % base) in t:
+                        body_ok = any((c2.callee or "").split("::")[-1] in visitors and len(c2.args) > 1 and base in sh(ne(fn.deep(c2.args[1]))) and "next(" in sh(ne(fn.deep(c2.args[1]))) and c2.block in fn.reach_from_succ(c.block) and c.block in fn.reach_from_succ(c2.block) for c2 in fn.calls())
+                        if body_ok:
+                            via.add(c.block)
+                            how = "loop"
+                # a helper that takes the whole node is responsible for its children
+                if short in visitors and short not in ("check_expr", "check_boolean_expr", "check_block") and any(sh(ne(fn.deep(a))) == owner_text for a in c.args[1:]):
+                    via.add(c.block)
+                    how = how or short
+            removed_edges = [(x[1], x[2]) for x in none_side if isinstance(x, tuple)]
+            if via:
+                r2 = fn.reach([tgt], removed_nodes=via | outside, removed_edges=removed_edges)
+                if not (r2 & exits):
+                    ctx.ok(key, fn.where(sorted(via)[0]), "visited on every path through the arm (%s%s)" % (how, ", when present" if opt else ""))
+                    continue
+            # destructured in place: a switch on the child's own kind inside the arm; every nested kind then answers for itself
+            nested = None
+            if kind == "expr" and depth < 2:
+                for S2 in sorted(arm_only):
+                    if fn.blocks[S2]["t"]["k"] == "switch":
+                        si2 = fn.switch_info(S2)
+                        if si2["kind"] == "discr" and "parser::Expr" in si2["ty"] and sh(ne(fn.deep(fn.blocks[S2]["t"]["d"]))) == "discr(%s)" % target_text:
+                            nested = (S2, si2)
+                            break
+            if nested is not None:
+                S2, si2 = nested
+                n[0] -= 1
+                for lab2, t2 in fn.succ[S2]:
+                    names = label_names(fn, S2, [lab2], si2)
+                    region2 = {b for b in fn.live if fn.edge_dominated(b, S2, [lab2])} | {t2}
+                    direct = {c.block for c in fn.calls() if c.block in region2 and (c.callee or "").split("::")[-1] in visitors and len(c.args) > 1 and sh(ne(fn.deep(c.args[1]))) == target_text}
+                    if direct:
+                        r3 = fn.reach([t2], removed_nodes=direct | (set(fn.live) - region2 - exits))
+                        n[0] += 1
+                        if r3 & exits:
+                            ctx.bad("%s|%s|skippable" % (key, "/".join(sorted(names))[:30]), fn.where(sorted(direct)[0]), "a %s whose `%s` is a %s node can reach the end of %s without that node being checked" % (vname, fname, "/".join(sorted(names))[:40], fid.split("::")[-1]))
+                        else:
+                            ctx.ok("%s|%s" % (key, "/".join(sorted(names))[:30]), fn.where(sorted(direct)[0]), "checked as a whole")
+                        continue
+                    for nv in sorted(names):
+                        vv = expr_variants.get(nv)
+                        if vv is not None and any(child_kind(f[1])[0] for f in vv["fields"]):
+                            if len(names) == 1:
+                                check_children(fn, fid, S2, lab2, t2, target_text, nv, vv, visitors, param, depth + 1)
+                            else:
+                                n[0] += 1
+                                ctx.bad("%s|%s|unvisited" % (key, nv), fn.where(t2), "a %s whose `%s` is a %s node is accepted without looking inside that node" % (vname, fname, nv))
+                continue
+            if not via:
+                ctx.bad(key + "|never", fn.where(tgt), "the `%s` of a %s node is never handed to the checker: nothing inside it is subject to the static rules" % (fname, vname))
+            else:
+                ctx.bad(key + "|skippable", fn.where(sorted(via)[0]), "in the %s arm of %s there is a path to the end of the function that does not visit `%s`: on that path an undeclared name, a wrong argument count or a type error inside it is accepted" % (vname, fid.split("::")[-1], fname))
+
+    for fid, adt, pidx, visitors in ((CE, "syntax::parser::Expr", 2, ("check_expr", "check_boolean_expr")),
+                                     ("resolver::Resolver::check_stmt", "syntax::parser::Stmt", 2, ("check_expr", "check_boolean_expr", "check_block", "check_function_body", "check_return_stmt", "check_assign_index"))):
+        fn = ctx.need(fid)
+        ctx.touch(fn)
+        S, si = entry_discr_switch(fn, pidx)
+        if S is None:
+            ctx.bad("traversal|%s|no-dispatch" % fid.split("::")[-1], fn.where(), "%s does not dispatch on the node kind" % fid.split("::")[-1])
+            continue
+        param = fn.locals[pidx]["name"] or "arg%d" % pidx
+        variants = {v["name"]: v for v in ctx.lib.adt(adt)["variants"]}
+        for lab, tgt in fn.succ[S]:
+            names = label_names(fn, S, [lab], si)
+            for vname in sorted(names):
+                v = variants.get(vname)
+                if v is None:
+                    continue
+                if len(names) > 1 and any(child_kind(f[1])[0] for f in v["fields"]):
+                    n[0] += 1
+                    ctx.bad("traversal|%s|%s|shared-arm" % (fid.split("::")[-1], vname), fn.where(tgt), "%s nodes share an arm with other kinds: their children are not visited" % vname)
+                    continue
+                check_children(fn, fid, S, lab, tgt, param, vname, v, visitors, param, 0)
+    ctx.floor("child fields of expression/statement nodes", n[0], 18)
+    # the fact the named exception rests on: a function definition that is not registered has been reported
+    pb = ctx.need("resolver::Resolver::predeclare_block_functions")
+    ctx.touch(pb)
+    reg = {c.block for c in pb.calls() if (c.callee or "").endswith("ProgramFacts::push_function")}
+    err = {c.block for c in pb.calls() if c.callee == EMIT}
+    arm = None
+    for S2 in sorted(pb.live):
+        if pb.blocks[S2]["t"]["k"] == "switch":
+            si2 = pb.switch_info(S2)
+            if si2["kind"] == "discr" and "parser::Stmt" in si2["ty"]:
+                for lab2, t2 in pb.succ[S2]:
+                    if label_names(pb, S2, [lab2], si2) == {"FunctionDef"}:
+                        arm = (S2, lab2, t2)
+    heads = {c.block for c in pb.calls() if (c.callee or "").split("::")[-1] == "next" and arm is not None and pb.dominates(c.block, arm[0])}
+    if arm is None or not reg:
+        ctx.bad("predeclare|shape", pb.where(), "cannot see the FunctionDef arm / the registration in predeclare_block_functions")
+    else:
+        r = pb.reach([arm[2]], removed_nodes=reg | err)
+        if r & (heads | set(pb.exits())):
+            ctx.bad("predeclare|silent-skip", pb.where(arm[2]), "predeclare_block_functions can skip the registration of a function definition without reporting an error: check_function_body then returns early and the body of that function is never checked")
+        else:
+            ctx.ok("predeclare|skip-implies-error", pb.where(arm[2]), "every path that does not register a function definition passes an emit_error")
+
+
+RULES = [("C09-R1", r1a_typing_tables), ("C09-R1b", r1b_accepted_is_evaluable), ("C09-R2", r2_rule_presence), ("C09-R3", r3_context_per_function), ("C09-R4", r4_declared_type_follows_latest_declaration), ("C09-R5", r5_every_child_is_checked)]
 
 EXPLANATION = (
     "R1: the accept/reject arms of check_expr are evaluated arm-by-arm (first-match semantics over name-resolved HIR patterns) "
